@@ -43,9 +43,6 @@ func (b *vFakeBlock) SetNoncePattern(pattern *appctlpb.NoncePattern) {}
 // vOutputs logs what a session hands to its underlay (redirect of Session.output).
 var vOutputs []*segment
 
-// vReplayRedirect is set by native replays whose overlay patches Session.output
-// to call vStubOutput, mirroring the symbolic redirect.
-var vReplayRedirect = os.Getenv("VERIF_REPLAY") != ""
 
 func vStubOutput(s *Session, seg *segment, remoteAddr net.Addr) error {
 	vOutputs = append(vOutputs, seg)
